@@ -590,9 +590,72 @@ func valueFunc(v ssa.Value) *ssa.Function {
 	return nil
 }
 
+// sizeDeltaHelper: fn adjusts the field by one of its parameters (t.size += sizeDelta): the parameter's index, -1 if not.
+func sizeDeltaHelper(fn *ssa.Function, field string) int {
+	idx := -1
+	n := 0
+	fn = origin(fn)
+	if fn == nil || fn.Blocks == nil {
+		return -1
+	}
+	instrs(fn, func(_ *ssa.BasicBlock, _ int, in ssa.Instruction) {
+		st, ok := in.(*ssa.Store)
+		if !ok {
+			return
+		}
+		if _, f, ok := storedField(st.Addr); !ok || f != field {
+			return
+		}
+		n++
+		bin, ok := resolveVal(st.Val).(*ssa.BinOp)
+		if !ok || bin.Op != token.ADD || !strings.HasSuffix(path(resolveVal(bin.X)), "."+field) {
+			return
+		}
+		if prm, isP := resolveVal(bin.Y).(*ssa.Parameter); isP && prm.Parent() == fn {
+			idx = paramIndex(prm)
+		}
+	})
+	if n != 1 {
+		return -1
+	}
+	return idx
+}
+
+// sizeDeltaCall: in is a call of such a helper with a constant: the constant.
+func sizeDeltaCall(in ssa.Instruction, field string) (int64, bool) {
+	call, ok := in.(*ssa.Call)
+	if !ok {
+		return 0, false
+	}
+	cal := staticCallee(&call.Call)
+	if cal == nil {
+		return 0, false
+	}
+	idx := sizeDeltaHelper(cal, field)
+	if idx < 0 || idx >= len(call.Call.Args) {
+		return 0, false
+	}
+	k, isK := call.Call.Args[idx].(*ssa.Const)
+	if !isK || k.Value == nil {
+		return 0, false
+	}
+	return k.Int64(), true
+}
+
 func ruleTreeSize(c *Ctx, r *R) {
-	inc := func(in ssa.Instruction) bool { return isFieldIncDec(in, "size", +1) }
-	dec := func(in ssa.Instruction) bool { return isFieldIncDec(in, "size", -1) }
+	// t.size++ / t.size--, or the bookkeeping helper both share handed +1 / -1 (t.noteStructuralChange(+1))
+	inc := func(in ssa.Instruction) bool {
+		if d, ok := sizeDeltaCall(in, "size"); ok {
+			return d == 1
+		}
+		return isFieldIncDec(in, "size", +1)
+	}
+	dec := func(in ssa.Instruction) bool {
+		if d, ok := sizeDeltaCall(in, "size"); ok {
+			return d == -1
+		}
+		return isFieldIncDec(in, "size", -1)
+	}
 	// who may write size
 	for _, fn := range c.funcsOfPkg(treeRel) {
 		name := c.nameOf(fn)
@@ -610,6 +673,17 @@ func ruleTreeSize(c *Ctx, r *R) {
 				return
 			}
 			okW := (inc(in) && onlyReachedFrom(c, fn, bt(c, "Put"), 0)) || (dec(in) && onlyReachedFrom(c, fn, bt(c, "Delete"), 0))
+			if !okW && sizeDeltaHelper(fn, "size") >= 0 {
+				// the shared helper: every call hands it +1 from Put's side or -1 from Delete's
+				sites := callSitesOf(c, fn)
+				okW = len(sites) > 0
+				for _, site := range sites {
+					d, isD := sizeDeltaCall(site, "size")
+					if !isD || !((d == 1 && onlyReachedFrom(c, site.Parent(), bt(c, "Put"), 0)) || (d == -1 && onlyReachedFrom(c, site.Parent(), bt(c, "Delete"), 0))) {
+						okW = false
+					}
+				}
+			}
 			r.ok(okW, name+"|writes-size", st.Pos(), "size may only be incremented by Put and decremented by Delete (or helpers called only from them)")
 		})
 	}
@@ -973,6 +1047,34 @@ func ruleTreeSearchCost(c *Ctx, r *R) {
 						}
 					}
 				})
+			}
+		}
+		if !good && len(calls) == 2 {
+			// the loop rotated: the root is searched in front of the loop, every further level at the bottom of the body, right
+			// after the step into children[idx] (idx merging both searches' results) - still one search per level
+			a, b := calls[0], calls[1]
+			if reaches(a.Block(), a.Block()) {
+				a, b = b, a
+			}
+			if !reaches(a.Block(), a.Block()) && reaches(b.Block(), b.Block()) && a.Block().Dominates(b.Block()) {
+				desc := false
+				instrs(fn, func(_ *ssa.BasicBlock, _ int, in ssa.Instruction) {
+					if phi, ok := in.(*ssa.Phi); ok {
+						for _, e := range phi.Edges {
+							if isChildAtSearchResult(e, a, b) {
+								desc = true
+							}
+						}
+					}
+				})
+				// the search in the loop looks at the node just stepped into
+				stepped := false
+				for _, arg := range b.Call.Args {
+					if isChildAtSearchResult(arg, a, b) {
+						stepped = true
+					}
+				}
+				good = desc || stepped
 			}
 		}
 		r.ok(good, name+"|one-search-per-level", fn.Pos(), "a lookup must call searchNode once per level and descend into children[idx] of that result")
@@ -1519,7 +1621,7 @@ var _ = late(func() {
 })
 
 // isChildAtSearchResult: v is X.children[idx] with idx the position the given search call returned.
-func isChildAtSearchResult(v ssa.Value, search *ssa.Call) bool {
+func isChildAtSearchResult(v ssa.Value, searches ...*ssa.Call) bool {
 	ld, ok := resolveVal(v).(*ssa.UnOp)
 	if !ok || ld.Op != token.MUL {
 		return false
@@ -1536,7 +1638,12 @@ func isChildAtSearchResult(v ssa.Value, search *ssa.Call) bool {
 		x = stripConvs(resolveVal(x))
 		switch y := x.(type) {
 		case *ssa.Extract:
-			return y.Tuple == ssa.Value(search) && y.Index == 0
+			for _, search := range searches {
+				if y.Tuple == ssa.Value(search) && y.Index == 0 {
+					return true
+				}
+			}
+			return false
 		case *ssa.Phi:
 			if d > 3 {
 				return false
